@@ -164,7 +164,9 @@ class Explorer:
         if b["restart"] > 0 and nonq:
             acts.append(("restart", None))
         if b["rotate"] > 0 and nonq:
-            acts.append(("rotate", None))
+            acts.append(("rotate", None))  # reset + re-hydrate (the processor's own rotation path)
+            if self.trust_negative:
+                acts.append(("rotate-bare", None))  # reset only: re-hydration declined / the shared filter was rotated elsewhere
         if b["retention"] > 0 and nonq:
             acts.append(("retention", None))
         if b["cancel"] > 0 and nonq:
@@ -240,6 +242,11 @@ class Explorer:
 
             get_deduplicator().reset()
             w.processor._hydrate_deduplicator()
+        elif kind == "rotate-bare":
+            b["rotate"] -= 1
+            from stabilize.queue.dedup import get_deduplicator
+
+            get_deduplicator().reset()
         elif kind == "retention":
             b["retention"] -= 1
             w.store.cleanup_completed_stage_claims()
